@@ -13,7 +13,8 @@ package flate
 // extra bits, 256 for end-of-block, and consumes exactly the bits of those symbols; the same for distance codes.
 // For each header a variant with some codes dropped (an INCOMPLETE code, which the library accepts) is parsed on
 // zeroed tables and on tables holding an earlier block's contents: acceptance, table predicates and every lookup
-// must agree (modes 4..6, boundedCheckStale).
+// must agree (modes 4..6, boundedCheckStale). Modes 7..9 repeat modes 1..3 with the code lengths run-length coded
+// (symbols 16/17/18, runs crossing from the literal/length into the distance lengths).
 
 import (
 	"fmt"
@@ -244,7 +245,11 @@ func lookupLit(t *largeHuffCodeTable, b uint64) (syms []uint32, bitCount uint32,
 // boundedParseHeader writes the dynamic block header for the given code lengths and runs the real parser on it, on
 // decoder state whose tables hold zeroes (prev == nil) or the tables an earlier block (prev) left.
 func boundedParseHeader(litLens, distLens []uint8, mode int, prev *inflate, mustAccept bool) (*inflate, string) {
-	// write the header: code length code = 4 bits for each of the symbols 0..15 (complete), no repeat codes
+	// modes 1..3: code length code = 4 bits for each of the symbols 0..15 (complete), no repeat codes;
+	// modes 7..9: the same multi-symbol modes with the lengths run-length coded (symbols 16, 17, 18; runs are taken
+	// over the concatenation of both alphabets, so they cross from the literal/length to the distance lengths)
+	rle := mode > 6
+	mode = (mode-1)%3 + 1
 	w := &bitsW{}
 	final := uint64(0)
 	if mode > 0 {
@@ -255,18 +260,75 @@ func boundedParseHeader(litLens, distLens []uint8, mode int, prev *inflate, must
 	w.put(uint64(len(litLens)-257), 5)
 	w.put(uint64(len(distLens)-1), 5)
 	w.put(15, 4)
-	for _, s := range []int{16, 17, 18, 0, 8, 7, 9, 6, 10, 5, 11, 4, 12, 3, 13, 2, 14, 1, 15} {
-		if s < 16 {
-			w.put(4, 3)
-		} else {
-			w.put(0, 3)
+	if !rle {
+		for _, s := range []int{16, 17, 18, 0, 8, 7, 9, 6, 10, 5, 11, 4, 12, 3, 13, 2, 14, 1, 15} {
+			if s < 16 {
+				w.put(4, 3)
+			} else {
+				w.put(0, 3)
+			}
 		}
-	}
-	for _, l := range litLens {
-		w.code(uint64(l), 4)
-	}
-	for _, l := range distLens {
-		w.code(uint64(l), 4)
+		for _, l := range litLens {
+			w.code(uint64(l), 4)
+		}
+		for _, l := range distLens {
+			w.code(uint64(l), 4)
+		}
+	} else {
+		// code length code: symbols 0..12 with 4 bits (codes 0..12), 13..18 with 5 bits (codes 26..31): complete
+		for _, s := range []int{16, 17, 18, 0, 8, 7, 9, 6, 10, 5, 11, 4, 12, 3, 13, 2, 14, 1, 15} {
+			if s < 13 {
+				w.put(4, 3)
+			} else {
+				w.put(5, 3)
+			}
+		}
+		sym := func(s int) {
+			if s < 13 {
+				w.code(uint64(s), 4)
+			} else {
+				w.code(uint64(26+s-13), 5)
+			}
+		}
+		all := append(append([]uint8{}, litLens...), distLens...)
+		for i := 0; i < len(all); {
+			v := all[i]
+			r := 1
+			for i+r < len(all) && all[i+r] == v {
+				r++
+			}
+			switch {
+			case v == 0 && r >= 3:
+				k := r
+				if k > 138 {
+					k = 138
+				}
+				if k <= 10 {
+					sym(17)
+					w.put(uint64(k-3), 3)
+				} else {
+					sym(18)
+					w.put(uint64(k-11), 7)
+				}
+				i += k
+			case v != 0 && r >= 4:
+				sym(int(v))
+				i++
+				for rem := r - 1; rem >= 3; {
+					k := rem
+					if k > 6 {
+						k = 6
+					}
+					sym(16)
+					w.put(uint64(k-3), 2)
+					rem -= k
+					i += k
+				}
+			default:
+				sym(int(v))
+				i++
+			}
+		}
 	}
 	hdr := w.bytes()
 	pad := 64
@@ -444,6 +506,55 @@ func boundedEarlierBlocks() []*inflate {
 	return boundedEarlier
 }
 
+// boundedAlignRuns permutes the lengths within each alphabet (the codes stay complete) so that a run of one non-zero
+// length ends the literal/length lengths and continues at the start of the distance lengths: run-length coding
+// then emits a repeat (symbol 16) that crosses from one alphabet into the other.
+func boundedAlignRuns(lit, dist []uint8) {
+	best, bestN := 0, 0
+	for l := 1; l <= 15; l++ {
+		nl, nd := 0, 0
+		for s, x := range lit {
+			if int(x) == l && s != 256 {
+				nl++
+			}
+		}
+		for _, x := range dist {
+			if int(x) == l {
+				nd++
+			}
+		}
+		n := nl
+		if nd < n {
+			n = nd
+		}
+		if n > bestN {
+			best, bestN = l, n
+		}
+	}
+	if bestN == 0 {
+		return
+	}
+	move := func(a []uint8, to int, skip int) {
+		if int(a[to]) == best {
+			return
+		}
+		for s, x := range a {
+			if int(x) == best && s != skip && s != to && !(to > len(a)-5 && s > to) && !(to < 4 && s < to) {
+				a[s], a[to] = a[to], a[s]
+				return
+			}
+		}
+	}
+	for k := 0; k < 3 && k < bestN; k++ {
+		if len(lit)-1-k != 256 {
+			move(lit, len(lit)-1-k, 256)
+		}
+		if k < len(dist) {
+			move(dist, k, -1)
+		}
+	}
+}
+
 // boundedDropCodes makes a code incomplete: some used symbols (never end-of-block) lose their code, preferably long ones.
 func boundedDropCodes(rng *rand.Rand, lens []uint8, keep int) []uint8 {
 	out := append([]uint8{}, lens...)
@@ -498,7 +609,10 @@ func TestBoundedHeaderTables(t *testing.T) {
 		for j, s := range rng.Perm(ndist)[:dused] {
 			distLens[s] = dl[j]
 		}
-		for mode := 1; mode <= 3; mode++ {
+		if i%3 == 1 {
+			boundedAlignRuns(litLens, distLens)
+		}
+		for _, mode := range []int{1, 2, 3, 7, 8, 9} {
 			explored++
 			if m := boundedCheckHeader(rng, litLens, distLens, mode, np); m != "" {
 				nfail++
@@ -552,7 +666,7 @@ func TestBoundedHeaderTablesReplay(t *testing.T) {
 	}
 	lit, dist := parse(os.Getenv("VERIF_BOUNDED_LENS")), parse(os.Getenv("VERIF_BOUNDED_DIST"))
 	mode := envInt("VERIF_BOUNDED_PREFILL", 3)
-	if mode > 3 {
+	if mode > 3 && mode <= 6 {
 		if m := boundedCheckStale(rand.New(rand.NewSource(1)), lit, dist, mode-3, 20000); m != "" {
 			t.Fatalf("header (mode %d): %s", mode, m)
 		}
